@@ -46,7 +46,7 @@ def check(ctx, rep):
         derivs.append(b)
         want = ("HMAC", ("arr", tuple(("int", x) for x in TBC_SEED)), (P(1),))
         alt = ("HMAC", ("const", TBC_SEED), (P(1),))
-        rep.check(b in (want, alt), "key-derivation", fn, "hmac", "key = HMAC-SHA1(TBC seed; session key), all 20 bytes", "cipher key is %s, expected HMAC-SHA1(key=%s; arg1)" % (show_b(b)[:300], TBC_SEED.hex()), se.body.loc())
+        rep.check(b in (util.cb(want), util.cb(alt)), "key-derivation", fn, "hmac", "key = HMAC-SHA1(TBC seed; session key), all 20 bytes", "cipher key is %s, expected HMAC-SHA1(key=%s; arg1)" % (show_b(b)[:300], TBC_SEED.hex()), se.body.loc())
         kt = ctx.fb.ty(ctx.fb.adt_fields(half)[kf]["ty"])
         rep.check(kt.k == "array" and kt.len == 20, "key-derivation", half, "key-width", "stored key is [u8; 20]", "stored key type is %s" % kt.s)
     rep.check(len(derivs) == 2 and derivs[0] == derivs[1], "key-derivation", MOD, "siblings-agree", "encrypter and decrypter derive the same key expression", "the two key derivations differ")
